@@ -161,20 +161,126 @@ def _ipdom(body):
     return idom, EXIT
 
 
-def paths(ctx, body, start_bb=0, max_paths=4096):
-    """[(conds, blocks)] for every acyclic path start -> return. conds = [(switch_bb, target_bb)] for
-    every non-noise switch passed"""
+def _iter_loop(ctx, body, g, n):
+    """if node n is the header of a side-effect-free `for x in it { if C(x) { return V } }` loop, return
+    (summary, none_node): summary = {"src": iterated expr, "elem": expr of x, "alts": [conds of each early-exit path],
+    "exit_blocks": blocks of one early-exit path}; none_node = where the walk continues when the iterator is exhausted"""
     an = ctx.an(body)
+    bb = g.bb(n)
+    t = body.blocks[bb].term
+    if t.kind != "call" or not (t.callee_name() or "").endswith("::next") or not flow.short(t.callee["def"]).endswith("Iterator::next"):
+        return None
+    # the switch on the result
+    cur = n
+    sw = None
+    for _ in range(4):
+        ss = g.succ[cur]
+        if len(ss) != 1:
+            break
+        cur = ss[0]
+        if body.blocks[g.bb(cur)].term.kind == "switch":
+            sw = cur
+            break
+    if sw is None:
+        return None
+    e, ls = an.switch_info(g.bb(sw))
+    x = flow.strip(e)
+    if not (x[0] == "call" and x[4] == bb):
+        return None
+    some_n = [m for m in g.succ[sw] if "Some" in ls.get(g.bb(m), [])]
+    none_n = [m for m in g.succ[sw] if "None" in ls.get(g.bb(m), [])]
+    if len(some_n) != 1 or len(none_n) != 1:
+        return None
+    ipd = body._ipdom
+    idom, EXIT = ipd
+    early, cont, region = [], [], set()
+
+    def walk(m, conds, blocks, visited):
+        if len(early) + len(cont) > 64:
+            return
+        for _ in range(10000):
+            b2 = g.bb(m)
+            if b2 == bb:
+                cont.append((conds, blocks))
+                return
+            if b2 in visited:
+                return
+            visited = visited | {b2}
+            blocks = blocks + [b2]
+            t2 = body.blocks[b2].term
+            if t2.kind == "return":
+                early.append((conds, blocks))
+                return
+            ss2 = g.succ[m]
+            if not ss2:
+                return
+            if t2.kind == "switch":
+                if body.is_noise(t2):
+                    j = idom.get(b2)
+                    if j is None or j == EXIT:
+                        return
+                    mm = g.node_of.get((j, g.val(m)))
+                    if mm is None:
+                        return
+                    m = mm
+                    continue
+                decided = len(set(body.succ[b2])) > 1 and len(ss2) == 1
+                for m2 in sorted(set(ss2), key=lambda q: g.bb(q)):
+                    walk(m2, conds if decided else conds + [(b2, g.bb(m2))], blocks, visited)
+                return
+            m = ss2[0]
+    walk(some_n[0], [], [], frozenset())
+    if not early or not cont:
+        return None
+    for c, bl in early + cont:
+        region.update(bl)
+    # purity: nothing in the loop body writes memory or takes a mutable borrow (besides advancing the iterator)
+    for wb, wi, ws in an.mem_writes:
+        if wb in region and not body.is_noise(ws):
+            return None
+    for rb in region:
+        t2 = body.blocks[rb].term
+        if t2.kind == "call" and not body.is_noise(t2) and any(str(a).startswith("&mut") for a in t2.argtys):
+            return None
+    vals = set(canon(path_value(ctx, body, bl) or ("unknown", "none")) for _, bl in early)
+    if len(vals) != 1:
+        return None
+    return ({"src": t.args[0], "src_expr": an.operand_expr(t.args[0], (bb, "term")), "elem": ("field", ("variant", e, "Some"), "0"),
+             "alts": [c for c, _ in early], "exit_blocks": early[0][1]}, none_n[0])
+
+
+def paths(ctx, body, start_bb=0, max_paths=4096, loops=False):
+    """[(conds, blocks)] for every acyclic path start -> return. conds = [(switch_bb, target_bb)] for
+    every non-noise switch passed whose outcome is not already decided on that path. The walk runs over the CFG refined
+    by the body's constant-carrying locals (bools and enum tags: verdicts of merged helpers, `&&` results kept in a
+    variable), so a test of such a local contributes no condition and infeasible combinations are not enumerated."""
+    from .sample import scenario_flags
     ipd = getattr(body, "_ipdom", None)
     if ipd is None:
         ipd = body._ipdom = _ipdom(body)
     idom, EXIT = ipd
+    cache = getattr(body, "_bf_graph", None)
+    if cache is None:
+        flags = scenario_flags(body)
+        if len(flags) > 16:
+            flags = flags[:16]
+        g = flow.Graph(body, flags)
+        if len(g.nodes) > 60 * max(1, len(body.blocks)):
+            g = flow.Graph(body, [])
+        cache = body._bf_graph = g
+    g = cache
     out = []
+    starts = g.nodes_of_bb(start_bb)
+    if start_bb != 0:
+        # a region entered in the middle: flags unknown
+        g = flow.Graph(body, []) if not starts else g
+        starts = g.nodes_of_bb(start_bb)
 
-    def go(bb, conds, blocks, visited):
+    def go(n, conds, blocks, visited):
         if len(out) >= max_paths:
             return
         for _ in range(100000):
+            bb = g.bb(n)
             blk = body.blocks[bb]
             if bb in visited:
                 return  # loop: abandon this path (callers treat loops separately)
@@ -184,21 +290,39 @@ def paths(ctx, body, start_bb=0, max_paths=4096):
             if t.kind == "return":
                 out.append((conds, blocks))
                 return
-            ss = body.succ[bb]
+            ss = g.succ[n]
             if not ss:
                 return
+            if loops and t.kind == "call":
+                lp = _iter_loop(ctx, body, g, n)
+                if lp is not None:
+                    summ, none_node = lp
+                    # some element takes the early exit
+                    out.append((conds + [("loop", dict(summ, any=True))], blocks + summ["exit_blocks"]))
+                    # no element does: continue after the loop
+                    conds = conds + [("loop", dict(summ, any=False))]
+                    n = none_node
+                    continue
             if t.kind == "switch":
                 if body.is_noise(t):
                     j = idom.get(bb)
                     if j is None or j == EXIT:
                         return
-                    bb = j
+                    m = g.node_of.get((j, g.val(n)))
+                    if m is None:
+                        cands = g.nodes_of_bb(j)
+                        if not cands:
+                            return
+                        m = cands[0]
+                    n = m
                     continue
-                for tb in sorted(set(ss)):
-                    go(tb, conds + [(bb, tb)], blocks, visited)
+                decided = len(set(body.succ[bb])) > 1 and len(ss) == 1
+                for m in sorted(set(ss), key=lambda x: g.bb(x)):
+                    go(m, conds if decided else conds + [(bb, g.bb(m))], blocks, visited)
                 return
-            bb = ss[0]
-    go(start_bb, [], [], frozenset())
+            n = ss[0]
+    for n0 in starts[:1]:
+        go(n0, [], [], frozenset())
     return out
 
 
@@ -282,25 +406,69 @@ def function_formula(ctx, body, bind=None, start_bb=0, value_of=None):
     """OR over paths of (path conditions ∧ value) for a bool-valued body"""
     an = ctx.an(body)
     alts = []
-    for conds, blocks in paths(ctx, body, start_bb):
-        cf = []
-        for sb, tb in conds:
-            e, ls = an.switch_info(sb)
-            labs = ls.get(tb, [])
-            cf.append(cond_formula(ctx, e, labs, bind))
+    for conds, blocks in paths(ctx, body, start_bb, loops=True):
+        cf = conds_formulas(ctx, body, conds, bind)
         v = path_value(ctx, body, blocks)
         vf = value_of(v) if value_of else expr_formula(ctx, v, bind)
         alts.append(f_and(*(cf + [vf])))
     return f_or(*alts)
 
 
+def subst(f, old, new):
+    """replace a canonical sub-term inside every atom of a formula"""
+    if isinstance(f, str):
+        return f.replace(old, new)
+    if isinstance(f, tuple):
+        return tuple(subst(x, old, new) for x in f)
+    return f
+
+
+def conds_formulas(ctx, body, conds, bind=None, skip=None):
+    """formulas of the conditions collected by paths(): switch edges and loop summaries"""
+    an = ctx.an(body)
+    cf = []
+    for c in conds:
+        if c[0] == "loop":
+            summ = c[1]
+            elem = canon(summ["elem"], bind)
+            alts = []
+            for alt in summ["alts"]:
+                fs = []
+                for sb, tb in alt:
+                    e, ls = an.switch_info(sb)
+                    fs.append(cond_formula(ctx, e, ls.get(tb, []), bind))
+                alts.append(f_and(*fs))
+            inner = subst(f_or(*alts), elem, "ELEM")
+            q = quantifier("any", canon(summ["src_expr"], bind), inner)
+            cf.append(q if summ["any"] else f_not(q))
+            continue
+        sb, tb = c
+        e, ls = an.switch_info(sb)
+        if skip is not None and skip(e):
+            continue
+        cf.append(cond_formula(ctx, e, ls.get(tb, []), bind))
+    return cf
+
+
 def cond_formula(ctx, e, labels, bind):
     if "true" in labels or "false" in labels:
         f = expr_formula(ctx, e, bind)
         return f if "true" in labels else f_not(f)
-    # enum discriminant: atom per (subject, variant)
+    # enum discriminant: atom per (subject, variant); an Option test is the same atom as is_some()/is_none()
     subj = canon(e, bind)
+    if labels and all(l in ("Some", "None") for l in labels):
+        at = ("atom", ("some", subj))
+        return f_or(*[at if l == "Some" else f_not(at) for l in labels])
     return f_or(*[("atom", ("is", subj, l)) for l in labels])
+
+
+def quantifier(kind, src, inner):
+    """any/all over a collection with a per-element formula; all(¬P) and any(¬P) are written with the positive body
+    (¬any(P), ¬all(P)) so that equivalent spellings give the same atom"""
+    if inner[0] == "not":
+        other = "any" if kind == "all" else "all"
+        return f_not(("atom", (other, src, show(inner[1]))))
+    return ("atom", (kind, src, show(inner)))
 
 
 def expr_formula(ctx, e, bind=None):
@@ -343,14 +511,14 @@ def expr_formula(ctx, e, bind=None):
             return f_not(("atom", ("some", canon(x[3][0], bind))))
         if d.endswith("Option::is_some_and"):
             subj = canon(x[3][0], bind)
-            return f_and(("atom", ("some", subj)), closure_formula(ctx, x[3][1], ["payload(%s)" % subj], bind))
+            return f_and(("atom", ("some", subj)), closure_formula(ctx, x[3][1], ["%s@Some.0" % subj], bind))
         if d.endswith("Option::is_none_or"):
             subj = canon(x[3][0], bind)
-            return f_or(f_not(("atom", ("some", subj))), closure_formula(ctx, x[3][1], ["payload(%s)" % subj], bind))
+            return f_or(f_not(("atom", ("some", subj))), closure_formula(ctx, x[3][1], ["%s@Some.0" % subj], bind))
         if d.endswith(("Iterator::any", "Iterator::all")):
             src = canon(x[3][0], bind)
             inner = closure_formula(ctx, x[3][1], ["ELEM"], bind)
-            return ("atom", (last, src, show(inner)))
+            return quantifier(last, src, inner)
         if d.endswith("Regex::is_match"):
             return ("atom", ("match", canon(x[3][0], bind), canon(x[3][1], bind)))
         if d.endswith(("Vec::<T, A>::is_empty", "Vec::is_empty", "is_empty")):
